@@ -1,4 +1,5 @@
 import Zc.Proofs.QueryGen
+import Zc.GenFacts.FnHistory
 /-! # C13 — queries carry known answers and are not needlessly repeated
 
 Model: `Zc.QueryGen` (`lean/Zc/Model/QueryGen.lean`): `generate_service_query`, the lookup's
@@ -330,5 +331,52 @@ example :
 
 example : Loop.asks none (Loop.init 0 3000) [(0, 20), (220, 20), (440, 20), (1459, 120)] = [(0, true), (220, false), (440, false), (1459, false)] := by
   decide
+
+/-! ## Tie: the source of `_history.py`, translated statement by statement on every run
+
+`Zc.GenFn.History` is regenerated from the *bodies* of `QuestionHistory`'s methods (`tools/gen_fn.py`);
+`GenFacts/FnHistory.lean` proves that the hand-written `History` model above computes what those bodies compute.
+So the suppression clause holds of the translated source itself, and a change in a method body breaks a named
+lemma of `FnHistory` at stage P. -/
+section Tie
+open Zc.Py Zc.GenFn.History Zc.GenFacts.FnHistory
+
+/-- **Suppression, exactly — for the translated `QuestionHistory.suppresses`.**  On any dict `_history` the generated function
+answers `True` iff the dict holds the question with a time at most 999 ms back and a known-answer set of which every
+record is among the known answers offered now. -/
+theorem C13_suppress_iff_source (s : QuestionHistory) (q : Question) (now : Int) (known : List Rec) :
+    s.suppresses lower q now known = true ↔
+      ∃ t prev, PyDict.get? (Question.beq lower) s.history q = some (t, prev) ∧ now - t ≤ 999 ∧
+        ∀ r ∈ prev, ∃ k ∈ known, r.beq lower k = true := by
+  rw [suppresses_eq, suppresses_iff, get?_eq_get]
+  constructor
+  · rintro ⟨e, he, h1, h2⟩
+    exact ⟨e.time, e.known, by rw [he]; rfl, h1, h2⟩
+  · rintro ⟨t, prev, he, h1, h2⟩
+    cases hg : History.get lower (absH { history := s.history }) q with
+    | none => rw [hg] at he; cases he
+    | some e =>
+      rw [hg] at he
+      simp only [Option.map_some, Option.some.injEq, Prod.mk.injEq] at he
+      exact ⟨e, rfl, by rw [he.1]; exact h1, by rw [he.2]; exact h2⟩
+
+/-- **The model's history is the translated code's, along every sequence of calls** (`add_question_at_time`, `async_expire`,
+`clear` in any order, from the empty history): the translated code never raises (`async_expire`'s `del` finds its key), the
+model list has one entry per question, and every later `suppresses` decision of the model is the translated function's. -/
+theorem C13_history_is_source (ops : List HOp) :
+    ∃ s, runGen lower ops QuestionHistory.init = .ok s ∧ History.Keyed lower (runModel lower ops []) ∧
+      ∀ q now known, s.suppresses lower q now known = (runModel lower ops []).suppresses lower q now known := by
+  obtain ⟨s, h1, h2⟩ := run_sim lower ops (sim_init lower)
+  exact ⟨s, h1, h2.2.1, fun q now known => sim_suppresses lower h2 q now known⟩
+
+/-- non-vacuity: a question recorded 999 ms ago with a covered known-answer set suppresses, at 1000 ms it does not -/
+example :
+    let q : Question := { name := "_x._tcp.local.", type := 12, class_ := 1, unique := false }
+    let r : Rec := { name := "_x._tcp.local.", type := 12, class_ := 1, unique := false, ttl := 4500, created := 0, rdata := .ptr "a._x._tcp.local." }
+    let s := QuestionHistory.add_question_at_time id QuestionHistory.init q 1000 [r]
+    s.suppresses id q 1999 [r] = true ∧ s.suppresses id q 2000 [r] = false ∧ s.suppresses id q 1999 [] = false := by
+  decide
+
+end Tie
 
 end Zc
